@@ -198,7 +198,7 @@ class Snapshotter(PointCounter):
                     fhandle.write(durable)
 
 
-WARM_UPS = ('none', 'repack', 'clean+vacuum', 'has-absent', 'list', 'read', 'none', 'none')
+WARM_UPS = ('none', 'repack', 'clean+vacuum', 'has-absent', 'list', 'read', 'store-known-no-holes', 'pack-all')
 
 
 def warm_up(world, rop):
@@ -223,6 +223,14 @@ def warm_up(world, rop):
             elif name == 'read' and world.model:
                 key = sorted(world.model)[choice // len(WARM_UPS) % len(world.model)]
                 cont.get_object_content(key)
+            elif name == 'store-known-no-holes' and world.model:
+                # content the container already holds, through both write paths (fills whatever the handle caches about keys)
+                keys = sorted(world.model)
+                data = world.model[keys[choice // len(WARM_UPS) % len(keys)]]
+                cont.add_object(data)
+                cont.add_objects_to_pack([data], no_holes=True)
+            elif name == 'pack-all':
+                cont.pack_all_loose()
         except Exception as exc:  # pylint: disable=broad-except
             if raised_in_library(exc):
                 raise Violation(rop.get('prop_id', world.prop), f'warm-up-raised:{name}:{type(exc).__name__}', f'{name} on a reachable state raised {exc!r}') from exc
